@@ -11,6 +11,8 @@ HARNESSES += [h for h in _load("C05").HARNESSES if h.name.startswith("wrap.") an
 HARNESSES += _load("C06").seek_harnesses()
 # H6: sf_close of an ALAC encoder under output faults still releases the spool stream, the temporary file and every block
 HARNESSES += [h for h in _load("C16").alac_harnesses() if "faulty" in h.name]
+# H7: codec init under I/O faults followed by close (what a failing sf_open does)
+HARNESSES += _load("C16").codec_init_harnesses()
 # header-cache primitives on a pipe / short file: bounded (no spinning at EOF)
 HARNESSES += [h for h in _load("C03").readf_harnesses() if ".pipe" in h.name]
 META = {"assumptions": ["fault model = E-memfile MF_FAULTY: per call, any shorter transfer, failing seek, arbitrary tell/length answers"],
